@@ -25,6 +25,18 @@ CHECKS = {
    text="Honest networks plus a raw-QUIC impostor replaying certificates; concurrency of dials and loss bursts are generated. Oracle is one-directional where the statement is (Ok => ...), Err always allowed under loss. Exploration.",
    note="Trusted: fabric + paused clock, rustls/quinn. Self-dials excluded by construction (counted).",
    design="§4 C03"),
+ "C04": dict(
+   engine="proptest+simnet (+ real threads)",
+   technique="property-based testing: model-based histories on the active-peer set driven directly with real quinn connections (reference peer-set model + change-log replay), generated network-level histories with crash/restart and partitions (model-free change-log invariants after every step), and a real-thread stress of concurrent subscribe/list against one mutator",
+   text="Histories are generated and checked after every step against an independent model of the set and its event log; the thread-stress part samples real interleavings and says so. Exploration.",
+   note="Trusted: fabric + paused clock, tokio broadcast. Thread stress is statistical (not a pure function of the seed). Which connection survives a crash/restart race is left open by the statement, so network-level checks are model-free.",
+   design="§4 C04"),
+ "C05": dict(
+   engine="proptest+simnet (+ real-time part)",
+   technique="property-based testing: generated identity pairs x all four arrival-order combinations (enumerated) at decision level; generated registration/close-notice schedules on both sides with real connections; generated simultaneous dials on the simulated network with asymmetric delays, offsets, loss and background dialing; a small real-time part for wall-clock-dependent logic",
+   text="Arrival orders are enumerated where the space is four; schedules, delays and offsets are generated elsewhere. The oracle is the converged end state after a dynamically detected quiet window plus three further idle timeouts without events. Exploration.",
+   note="Trusted: fabric + paused clock. Cases where a dial returns Err are discarded (counted). The real-time part costs wall-clock seconds and is statistical.",
+   design="§4 C05"),
  "C06": dict(
    engine="simnet+proptest+libfuzzer",
    technique="property-based testing with a hostile-peer model on a simulated network: generated scripts of malformed/truncated/oversized streams, stream-level misbehaviour, hostile responses and abrupt closes by a raw QUIC endpoint, interleaved with honest traffic; oracle = no panic, network alive, honest and well-formed RPCs return exactly F(request); in-process fuzz target for the per-stream path in the thorough tier",
